@@ -302,6 +302,7 @@ def spec_special(I, st, name, node):
         if len(defaults) != len(names):
             raise Unsupported("quantifier variables need sorts as defaults: forall(lambda s=Str: ...)")
         side = []
+        skolem = name == "exists" and getattr(st, "assumed_toplevel", None) is node
         for nm, d in zip(names, defaults):
             tname = ast.unparse(d)
             if not REG.has(tname) and tname not in ("Int", "Real", "Str", "Bool", "DT", "TD"):
@@ -309,11 +310,15 @@ def spec_special(I, st, name, node):
                 if sv is not None and is_ref(strip_opt(sv.ty)):
                     tname = REG.get(strip_opt(sv.ty)[1]).all_params(REG).get(tname, tname)
             ty = REG.parse(tname)
-            c = z3.FreshConst(sort_of(strip_opt(ty)), nm)
-            bound.append(c)
+            c = z3.FreshConst(sort_of(strip_opt(ty)), nm) if not skolem else st.fresh(sort_of(strip_opt(ty)), "sk_" + nm)
+            if not skolem:
+                bound.append(c)
             v = Val(strip_opt(ty), c)
             fr.vars[nm] = v
-            if is_ref(strip_opt(ty)):
+            if skolem and is_ref(strip_opt(ty)):
+                # the witness may be an object allocated by the callee: typed, not necessarily allocated before
+                side.append(z3.And(c != NULL, st.cls_is(c, strip_opt(ty)[1])))
+            elif is_ref(strip_opt(ty)):
                 # quantification over objects ranges over allocated objects of that class
                 side.append(z3.And(c != NULL, st.alloc[c] if not st.in_old else st.alloc0[c], st.cls_is(c, strip_opt(ty)[1])))
         st.frames.append(fr)
@@ -340,6 +345,8 @@ def spec_special(I, st, name, node):
             return mkbool(z3.ForAll(bound, body))
         if side:
             body = z3.And(*side, body)
+        if skolem:
+            return mkbool(body)
         return mkbool(z3.Exists(bound, body))
     if name == "let":
         # let(lambda x=expr: body)
